@@ -122,8 +122,9 @@ static arr_real _highpass_fir(int n, real_t wn, const arr_real& win) {
     }
 
     auto h = _lowpass_fir(n, wn, win);
-    auto hh = arr_real(h.slice(t1, n, 2));
-    h.slice(t1, n, 2) = -hh;
+    //modulate by (-1)^k: every second tap up to and including the last one (h has n + 1 taps)
+    auto hh = arr_real(h.slice(t1, n + 1, 2));
+    h.slice(t1, n + 1, 2) = -hh;
     return h;
 }
 
